@@ -224,6 +224,32 @@ def worker(shard, part):
                             {"form": "coords", "kind": kind, "shape": [h, w], "coords": [list(c) for c in lst], "as": form},
                             {"expected": exp, "observed": obs},
                         )
+    elif what == "mutate":
+        # whatever a caller does with a result must not change the array it came from (nor later results)
+        _, tier, kind, h, w = shard
+        a = make_array(kind, h, w)
+        before = [v.id for v in a.data]
+        keys = [slice(None), 0, slice(None, None, -1), (slice(None), 0), (0, slice(None)), (slice(0, 2), slice(0, 2)), [(0, 0)]] if h and w else [slice(None)]
+        for k in keys:
+            part.count("evaluations")
+            try:
+                r = a[k]
+                if hasattr(r, "data"):
+                    r.data.append(None)
+                    if r.data:
+                        r.data[0] = None
+                f = a.flatten()
+                f.data.reverse()
+                rs = a.reshape((w, h))
+                rs.data.clear()
+                r2 = a[k]
+                ok = [v.id for v in a.data] == before and (not hasattr(r2, "data") or None not in r2.data)
+            except Exception as e:
+                ok = False
+                r2 = e
+            if not ok:
+                part.violation("getitem:result-mutation-leaks-into-the-array", {"form": "mutate", "kind": kind, "shape": [h, w], "key": repr(k)}, {"observed": repr(r2)[:200]})
+        part.add("mutate", (kind, h, w))
     elif what == "scale":
         # big arrays around the classic thresholds (32 columns, 256 / 257 cells, 1000+ cells) with a fixed key menu
         _, tier, kind, h, w = shard
@@ -333,6 +359,7 @@ def shards_for(tier):
                 out.append(("2d-single", tier, kind, h, w))
                 if h <= 3 and w <= 3:
                     out.append(("coords", tier, kind, h, w))
+                    out.append(("mutate", tier, kind, h, w))
         for n in range(0, 6):
             out.append(("1d", tier, kind, n))
         # larger axes with the lighter key alphabet (all pairs of keys still)
@@ -374,6 +401,8 @@ def replay(case):
         worker(("coords", tier, kind) + tuple(case["shape"]), part)
     elif form == "scale":
         worker(("scale", tier, kind) + tuple(case["shape"]), part)
+    elif form == "mutate":
+        worker(("mutate", tier, kind) + tuple(case["shape"]), part)
     else:
         worker(("reshape", tier, kind), part)
     mine = [v for v in part.violations if harness.jsonable(v.case) == case]
